@@ -282,7 +282,9 @@ def check_inline(ctx, prog):
             except bounded.Undecidable as u:
                 ctx.undecided('C04.inline', f['pq'], role, where, str(u))
                 continue
-            st, info = bounded.decide(prog, f, g.of(e), lambda ev: ev.ev(size) <= cap, by_id, by_text, range(0, cap + 40))
+            import cfg as cfgm
+            fcfg = cfgm.CFG(f)
+            st, info = bounded.decide(prog, f, g.of(e), lambda ev: ev.ev(size) <= cap, by_id, by_text, range(0, cap + 40), G=g, confirm=lambda ev: bounded.reaches(fcfg, ev, e))
             if st == 'undecided':
                 ctx.undecided('C04.inline', f['pq'], role, where, 'size `%s`: %s' % (pe(size), info))
             elif st == 'holds' and info == 0:
